@@ -201,6 +201,13 @@ def _check_arbitrary(rig, frame, tag):
     for r in resps:
         sx.observe("resp", r)
         sx.prove(len(sx.items(r)) == 8, "response is 8 bytes", tag + "/length")
+    # an initiate request names an object: whatever the answer (confirmation or abort), it echoes that multiplexer
+    if len(f) == 8 and len(resps) == 1 and len(sx.items(resps[0])) == 8:
+        ccs = f[0] >> 5
+        initiate = (ccs == 1) | (ccs == 2) | ((ccs == 6) & ((f[0] & 1) == 0)) | ((ccs == 5) & ((f[0] & 3) == 0))
+        r = sx.items(resps[0])
+        sx.prove(sx.not_(initiate) | ((r[1] == f[1]) & (r[2] == f[2]) & (r[3] == f[3])),
+                 "response to an initiate request does not echo the addressed multiplexer", tag + "/mux")
 
 
 def robust_step(L, bufm, unset):
